@@ -19,7 +19,7 @@ import (
 )
 
 func init() {
-	register(&Suite{Name: "conn", Gen: genConn, Exec: execConn})
+	register(&Suite{Name: "conn", Gen: genConn, Exec: execConn, Isolated: true})
 }
 
 // ---- scheduler: replays a schedule of the Lean transition system on the real code ---------------
